@@ -112,6 +112,10 @@ def rule_a(repo, chk):
     need(appends, 'C02.a: _EventQueue.append does not append to the FIFO')
     for n, c in appends:
         e = c.args[0] if c.args else None
+        if isinstance(e, ast.Name):
+            # the entry built into a local first (or by an extracted helper): the expressions the local stands for
+            cands = [v for v in pat.deref(app, e) if isinstance(v, ast.Tuple)]
+            e = cands[0] if len(cands) == 1 else e
         shape = isinstance(e, ast.Tuple) and len(e.elts) == 3
         chk.ob('a', app.ref, 'queued entry is a 3-tuple (priority, tie, payload)', shape, loc(app, c), detail=f'`{src(c)}`',
                discr='entry-shape')
@@ -122,6 +126,9 @@ def rule_a(repo, chk):
             chk.ob('a', app.ref, 'second element of the entry is the tie counter', tie_ok, loc(app, c),
                    detail=f'second element `{src(e.elts[1])}`', discr='entry-tie')
             payload = e.elts[2]
+            if isinstance(payload, ast.Name):
+                pc = [v for v in pat.deref(app, payload) if isinstance(v, ast.Tuple)]
+                payload = pc[0] if len(pc) == 1 else payload
             pl_ok = isinstance(payload, ast.Tuple) and [src(x) for x in payload.elts] == app.params[1:3]
             chk.ob('a', app.ref, 'payload is (event, channel)', pl_ok, loc(app, c), discr='entry-payload')
         incs = [m for m in g.nodes if m.kind == 'stmt' and isinstance(m.ast, ast.AugAssign) and isinstance(m.ast.op, ast.Add)
@@ -169,6 +176,12 @@ def rule_a(repo, chk):
             for c in calls_in(a.ast):
                 if c.args and isinstance(c.args[-1], ast.Tuple) and len(c.args[-1].elts) == 3:
                     tup = c.args[-1]
+                elif c.args and isinstance(c.args[-1], ast.Name):
+                    # built into a local just before (an extracted "stamp" helper): every reaching definition is such a tuple
+                    dfs = Q.reaching_defs(gd, a, c.args[-1].id)
+                    tv = [d.ast.value for d in dfs if d.kind == 'stmt' and isinstance(d.ast, ast.Assign) and isinstance(d.ast.value, ast.Tuple) and len(d.ast.value.elts) == 3]
+                    if dfs and len(tv) == len(dfs) and all(src(t_.elts[1]) == 'self._counter' for t_ in tv):
+                        tup = tv[0]
             incs = [n for n in gd.nodes if n.kind == 'stmt' and isinstance(n.ast, ast.AugAssign) and src(n.ast.target) == 'self._counter' and isinstance(n.ast.op, ast.Add)
                     and pat.is_const(n.ast.value, 1)]
             fresh = tup is not None and src(tup.elts[1]) == 'self._counter' and Q.reachable_without(gd, a, avoid_node=lambda n: n in incs) is None
@@ -344,13 +357,8 @@ def rule_c(repo, chk):
                discr='append-args')
 
 
-def _is_desc_sort(e):
-    """sorted(xs, key=attrgetter('priority'), reverse=True) and equivalent spellings."""
-    if not isinstance(e, ast.Call):
-        return False
-    name = call_name(e)
-    if name != 'sorted':
-        return False
+def _desc_kwargs(e):
+    """key=attrgetter('priority'), reverse=True (or the equivalent lambda spellings) on a sorted()/list.sort() call."""
     kw = {k.arg: k.value for k in e.keywords if k.arg}
     key = kw.get('key')
     if key is None:
@@ -370,6 +378,53 @@ def _is_desc_sort(e):
     return False
 
 
+def _is_desc_sort(e):
+    """sorted(xs, key=attrgetter('priority'), reverse=True) and equivalent spellings."""
+    if not isinstance(e, ast.Call):
+        return False
+    if call_name(e) != 'sorted':
+        return False
+    return _desc_kwargs(e)
+
+
+def _inplace_sorts(g, name):
+    """Nodes `name.sort(key=attrgetter('priority'), reverse=True)`: the in-place spelling of the descending-priority sort."""
+    out = []
+    for n in g.nodes:
+        if n.kind == 'stmt' and isinstance(n.ast, ast.Expr) and isinstance(n.ast.value, ast.Call):
+            c = n.ast.value
+            if isinstance(c.func, ast.Attribute) and c.func.attr == 'sort' and src(c.func.value) == name and not c.args and _desc_kwargs(c):
+                out.append(n)
+    return out
+
+
+def _def_sorted(g, dn, use, name):
+    """The list bound to *name* by definition *dn* is in descending priority order when it reaches *use*: built by sorted(..), or sorted in place on every
+    path from the definition to the use."""
+    v = dn.ast.value if dn.kind == 'stmt' and isinstance(dn.ast, ast.Assign) else None
+    if _is_desc_sort(v):
+        return True
+    ss = _inplace_sorts(g, name)
+    return bool(ss) and Q.reachable_without(g, use, start=dn, avoid_node=lambda m: m in ss, weak=True) is None
+
+
+def _flatten(g, triples):
+    """(definition, use, name) triples; a definition that merely copies another local (`handlers = result_of_helper`) stands for the definitions of that
+    local at the copy."""
+    for _round in range(3):
+        more = []
+        for dn, use, name in triples:
+            v0 = dn.ast.value if dn.kind == 'stmt' and isinstance(dn.ast, ast.Assign) else None
+            if isinstance(v0, ast.Name) and v0.id != name:
+                more.extend((d2, dn, v0.id) for d2 in Q.reaching_defs(g, dn, v0.id))
+            else:
+                more.append((dn, use, name))
+        if more == triples:
+            break
+        triples = more
+    return triples
+
+
 def rule_d(repo, chk):
     d = repo.func(MANAGER, 'Manager._dispatcher')
     chk.touch(d)
@@ -387,19 +442,11 @@ def rule_d(repo, chk):
             for t in n.ast.targets:
                 if isinstance(t, ast.Subscript) and src(t.value).startswith('self._cache'):
                     cache_store_vals.append((n, n.ast.value))
-    # a definition that merely copies another local (`handlers = result_of_helper`) stands for the definitions of that local
-    for _round in range(3):
-        more = []
-        for dn in defs:
-            v0 = dn.ast.value if dn.kind == 'stmt' and isinstance(dn.ast, ast.Assign) else None
-            if isinstance(v0, ast.Name) and v0.id != lv:
-                more.extend(Q.reaching_defs(g, dn, v0.id))
-            else:
-                more.append(dn)
-        if more == defs:
-            break
-        defs = more
-    for dn in defs:
+    triples = _flatten(g, [(dn, it, lv) for dn in defs])
+    names = {lv}
+    uses_ = [it]
+    for dn, use, name in triples:
+        names.add(name)
         if dn.kind == 'entry':
             chk.ob('d', d.ref, 'the handler list is defined on every path before the loop', False, loc(d, loop.ast),
                    discr='undefined')
@@ -412,41 +459,36 @@ def rule_d(repo, chk):
                 if not (isinstance(sv, ast.Name)):
                     ok = False
                     continue
-                d2s = Q.reaching_defs(g, sn, sv.id)
-                for _round in range(3):          # look through plain copies (`handlers = ordered`)
-                    nxt = []
-                    for d2 in d2s:
-                        v2 = d2.ast.value if d2.kind == 'stmt' and isinstance(d2.ast, ast.Assign) else None
-                        if isinstance(v2, ast.Name):
-                            nxt.extend(Q.reaching_defs(g, d2, v2.id))
-                        else:
-                            nxt.append(d2)
-                    if nxt == d2s:
-                        break
-                    d2s = nxt
-                for d2 in d2s:
-                    v2 = d2.ast.value if d2.kind == 'stmt' and isinstance(d2.ast, ast.Assign) else None
-                    if not _is_desc_sort(v2):
+                uses_.append(sn)
+                for d2, use2, name2 in _flatten(g, [(d2, sn, sv.id) for d2 in Q.reaching_defs(g, sn, sv.id)]):
+                    names.add(name2)
+                    if not _def_sorted(g, d2, use2, name2):
                         ok = False
             chk.ob('d', d.ref, 'the memo is only filled with descending-priority sorted lists', ok, loc(d, dn.ast),
                    discr='memo-filled-sorted')
         else:
-            chk.ob('d', d.ref, 'the handler list is built by a descending-priority sort', _is_desc_sort(v), loc(d, dn.ast),
+            chk.ob('d', d.ref, 'the handler list is built by a descending-priority sort', _def_sorted(g, dn, use, name), loc(d, dn.ast),
                    detail=f'`{src(dn.ast)[:120]}`', discr='sorted-desc')
+
+    def resorted(n, name):
+        """every way from *n* to the loop (or into the memo) sorts the list in place again"""
+        ss = _inplace_sorts(g, name)
+        return bool(ss) and all(Q.reachable_without(g, u, start=n, avoid_node=lambda m: m in ss, weak=True) is None for u in uses_ if u is not n)
+
     # no re-ordering of the list between its definition and the loop
     for n in g.nodes:
         if n.kind == 'stmt':
             for r, c in pat.method_calls(n.ast, 'sort') + pat.method_calls(n.ast, 'reverse') + pat.method_calls(n.ast, 'insert'):
-                if r == lv:
+                if r in names and n not in _inplace_sorts(g, r) and not resorted(n, r):
                     chk.ob('d', d.ref, 'the sorted list is not re-ordered afterwards', False, loc(d, c), detail=f'`{src(c)}`',
                            discr='reordered')
     # … and nothing is added to it unless it is empty (a fall-back appended to a non-empty sorted list runs after handlers of lower priority than its own)
     for n in g.nodes:
         if n.kind == 'stmt':
             for r, c in pat.method_calls(n.ast, 'append') + pat.method_calls(n.ast, 'extend'):
-                if r == lv:
-                    q_ = pat.guarded_by(g, n, pat.test_edge(lambda tt, pol: pat.fact_matches(pat.compare_fact(tt, pol), f'len({lv})', ('==',), '0') or
-                                                            (pol == 'F' and src(tt) == lv)), weak=True)      # (the memo miss is an implicit KeyError)
+                if r in names and not resorted(n, r):
+                    q_ = pat.guarded_by(g, n, pat.test_edge(lambda tt, pol: pat.fact_matches(pat.compare_fact(tt, pol), f'len({r})', ('==',), '0') or
+                                                            (pol == 'F' and src(tt) == r)), weak=True)      # (the memo miss is an implicit KeyError)
                     chk.ob('d', d.ref, 'a handler is added to the sorted list only when the list is empty', q_ is None, loc(d, c), detail=f'`{src(c)[:80]}`',
                            path=pat.path_lines(q_) if q_ else None, discr='append-only-when-empty')
     # handler(): the priority attribute is the decorator's argument
